@@ -214,8 +214,9 @@ PROPS = {
                        "Go type does not match the column is rejected; what OvsToNative accepts for an atomic column is a value of the column's type denoting the same OVS "
                        "value (nothing is converted); columns absent from a row leave the field untouched. Tied to the code by run-time struct models over a 60-column "
                        "table: NativeToOvs, OvsToNative, Mapper.NewRow and Mapper.GetRowData are compared with the model; the whole path incl. model.CreateModel and the "
-                       "schema validation of mismatching field types is checked by the driver's oracle. Partial: the composition over all columns of a model is a "
-                       "correspondence + oracle matter, not yet a theorem; integers are unbounded in the model."),
+                       "schema validation of mismatching field types is checked by the driver's oracle; the composition over all columns of a model (NewRow leaving out "
+                       "defaults, JSON, GetRowData into a fresh model) is the theorem C09_model_roundtrip. Partial only in that integers are unbounded in the model "
+                       "and the all-zero uuid is excluded (the two known findings)."),
         "level_note": ("Trusted: Coq kernel + vm_compute, std++; Go harness (reflect.StructOf models); encoding/json. Go's type identity of empty slices/maps and nil pointers "
                        "is invisible to the model (such mismatch cases are skipped). Known findings: integers beyond 2^53 (class 13) and the all-zero uuid (class 14)."),
         "rule": ("a value for a random column of the 60-column table (all atomic types as atom/optional/set 0..n/set 1..n/set 0..3, 15 map shapes, enums of strings and "
